@@ -88,6 +88,8 @@ func runC01(p *Prog, r *Result) {
 	checkTabwriterEscaping(p, r, si.pkg, si, "R01e")
 	r.Rule("R01f", "in arithmetic, between the text of an operator and the operand printed after it a space is written or a predicate over that operand is consulted: signs are not fused into another operator", 3)
 	checkArithmOperatorsKeptApart(p, r, "R01f")
+	r.Rule("R01g", "a word part whose printing can write a space on request sees no such request unless it is the first part of its word", 1)
+	checkNoSpaceInsideWord(p, r, "R01g")
 	pkg := si.pkg
 	info := pkg.TypesInfo
 	g := buildRefGraph(p)
@@ -473,6 +475,8 @@ func inDefaultOfRootSwitch(g *FGraph, b *FBlock) bool {
 }
 
 var c01Controls = []Control{
+	{Name: "space-inside-a-word", Rule: "R01g", WantKey: "wordParts#a ProcSubst that is not the first part", File: "syntax/printer.go",
+		Mutate: ctlReplaceAnywhere("\t\tif _, ok := wp.(*ProcSubst); ok && i > 0 {\n", "\t\tif _, ok := wp.(*ProcSubst); ok && i < 0 {\n")},
 	{Name: "compact-binary-glues-its-signs", Rule: "R01f", WantKey: "arithmExprRecurse#operator", File: "syntax/printer.go",
 		Mutate: ctlReplaceAnywhere("\t\t\tif signsWouldJoin(expr.Op.String(), expr.Y) {\n\t\t\t\tp.space() // \"a - -b\" must not become \"a--b\"\n\t\t\t}\n", "")},
 	{Name: "escape-only-tabs", Rule: "R01e", WantKey: "writeLit#escape decision", File: "syntax/printer.go",
